@@ -40,10 +40,13 @@ CaseRec == [kind |-> kind, nr |-> Len(M), nc |-> Len(M[1]), cells |-> M, ex |-> 
             rank0 |-> Rank(M), rankc |-> RankCentred(M),
             cc |-> [j \in 1..Len(M[1]) |-> B2I(ColConst(M, j))],
             cov |-> IF kind = "resp" THEN B2I(CovNonZero(M, y)) ELSE 0,
+            krank |-> IF kind = "resp" THEN KrylovRank(M, y) ELSE 0,
             ycst |-> B2I(YConst)]
 Emit == PrintT("@@" \o ToJson(CaseRec))
 \* theorems evaluated on every generated case (the exact-rank module checks itself)
 Theorems == /\ RankSane(M)
             /\ (kind = "resp" /\ YConst) => ~CovNonZero(M, y)          \* a constant response has no covariance with X
             /\ (kind = "resp" /\ RankCentred(M) = 0) => ~CovNonZero(M, y)
+            /\ kind = "resp" => /\ KrylovRank(M, y) \in 0..RankCentred(M)
+                                /\ (KrylovRank(M, y) = 0) = ~CovNonZero(M, y)
 ====
